@@ -446,10 +446,39 @@ def run_session(R, sess, alone_cache=None, want_fp=True):
     return v, info
 
 
+_FRESH = """
+import json, sys
+sys.dont_write_bytecode = True
+job = json.load(sys.stdin)
+sys.path.insert(0, job['verif'])
+from dsim import core, c20
+R = core.bind_repo(job['repo'])
+res = c20.exec_session(R, job['texts'], [], job['target'], False)
+res.pop('fp', None)
+json.dump(res, sys.stdout)
+"""
+
+
+def fresh_exec(R, texts, target):
+    "the target alone in a really fresh interpreter under another hash seed (stub fidelity of fork-from-zygote)"
+    import json         # pylint: disable=import-outside-toplevel
+    import os           # pylint: disable=import-outside-toplevel
+    import subprocess   # pylint: disable=import-outside-toplevel
+    from .core import VERIF_DIR     # pylint: disable=import-outside-toplevel
+    env = dict(os.environ)
+    env['PYTHONHASHSEED'] = 'random'
+    p = subprocess.run([sys.executable, '-c', _FRESH], input=json.dumps(dict(
+        verif=VERIF_DIR, repo=R.path, texts=texts, target=target)), env=env, capture_output=True, text=True,
+        timeout=600, check=False)
+    if p.returncode != 0:
+        return None
+    return json.loads(p.stdout)
+
+
 def new_acc():
     "empty accumulator"
     return dict(sessions=0, keys=set(), fps=set(), probes={}, viol=[], notes=[], samples=[], outcomes={},
-                pred_ops={}, digest=[])
+                pred_ops={}, digest=[], stub_disagreements=[])
 
 
 def _account(acc, sess, v, info, idx, extended):
@@ -478,12 +507,25 @@ def _account(acc, sess, v, info, idx, extended):
             acc['viol'].append(v)
 
 
-def work_sessions(R, seed, first, count, extended=False):
+def work_sessions(R, seed, first, count, extended=False, fresh=0.0):
     "random-history arm"
     acc = new_acc()
     for i in range(first, first + count):
         sess = gen_session(seed, i, extended)
-        v, info = run_session(R, sess)
+        cache = {}
+        v, info = run_session(R, sess, cache)
+        if fresh > 0 and rng(seed, 'hist-fresh', i).random() < fresh:
+            alone = list(cache.values())[0]
+            fr = fresh_exec(R, sess['texts'], sess['target'])
+            pr = acc['probes']
+            if fr is None:
+                pr['fresh_interpreter_failed'] = pr.get('fresh_interpreter_failed', 0) + 1
+            elif fr.get('outcome') == alone.get('outcome') and fr.get('outs') == alone.get('outs') \
+                    and fr.get('exc') == alone.get('exc'):
+                pr['fresh_interpreter_agrees'] = pr.get('fresh_interpreter_agrees', 0) + 1
+            else:
+                pr['fresh_interpreter_DISAGREES'] = pr.get('fresh_interpreter_DISAGREES', 0) + 1
+                acc['stub_disagreements'].append(dict(run=i, target=sess['target']))
         _account(acc, sess, v, info, ('x%d' if extended else 's%d') % i, extended)
         if i == first:
             acc['samples'].append(dict(run=i, history=sess['ops'], target=sess['target'],
